@@ -22,6 +22,9 @@ def run(ctx, R, tier):
     c06.sib(F, R)
     c06.prev(F, R)
     c06.set_unconditional(F, R, rule='B.C17.set')
+    # 'in the same chunk in which the modulator produced it': a sound is never picked up before the modulator it is linked to
+    from .c07 import pickup_order
+    pickup_order(F, R, rule='B.C17.pickup-order', which=('renderer',))
     from ..enginea import run_singular_only
     run_singular_only(R, F, lambda fn: 'value::Mapping' in fn or 'modulator::' in fn, floor=2)
 
